@@ -44,6 +44,7 @@ JudgeProtect(i, e) ==
             (IF why # "ok" THEN B(i, << "C06" >>, why) ELSE << >>)
             \o (IF ~o.hdrsame THEN B(i, << "C20" >>, "protect altered header fields of the message") ELSE << >>)
             \o (IF o.orig # NormChain(a.msg.payloads) THEN B(i, << "C20" >>, "protect altered the caller's payload objects") ELSE << >>)
+            \o (IF Has(o, "held") /\ o.held # NormChain(a.msg.payloads) THEN B(i, << "C20" >>, "protect wrote into the storage of the caller's payload container") ELSE << >>)
 
 JudgeUnprotect(i, e) ==
   LET o == e.obs a == e.args w == a.wire n == Len(w) IN
